@@ -49,6 +49,9 @@ func claimed(spec *UnitSpec, local string) bool {
 		if ok, _ := path.Match(g, local); ok {
 			return true
 		}
+		if globMatch(g, local) {
+			return true
+		}
 		// path.Match stops '*' at '/', local names have none; allow prefix globs with brackets by plain compare
 		if strings.HasSuffix(g, "*") && strings.HasPrefix(local, strings.TrimSuffix(g, "*")) {
 			return true
